@@ -351,3 +351,11 @@ lib_dataframe.kw = {"index"}
 lib_linspace.kw = {"num"}
 lib_to_numpy.kw = {"copy"}
 lib_df_to_string.kw = {"index", "header"}
+
+
+def df_wrap(fn):
+    """adapter: a DF_LIB transfer function as a rule-supplied intrinsic (keeps the declared keyword set)"""
+    def w(ev, a, k):
+        return fn(ev, a, k, None, None)
+    w.kw = getattr(fn, "kw", None)
+    return w
